@@ -39,6 +39,28 @@ func TableConstants() []TableConst {
 			uint64(protocol.RVProtTLS), uint64(protocol.RVProtCoapTCP), uint64(protocol.RVProtCoapUDP))},
 		{"rv_media_all", "list N", nlist(uint64(protocol.RVMedEthAll), uint64(protocol.RVMedWifiAll))},
 	}
+	// protocol.Of for every message type: 1 DI, 2 TO0, 3 TO1, 4 TO2, 0 anything else
+	rows := ""
+	for t := 0; t < 256; t++ {
+		code := 0
+		switch protocol.Of(uint8(t)) {
+		case protocol.DIProtocol:
+			code = 1
+		case protocol.TO0Protocol:
+			code = 2
+		case protocol.TO1Protocol:
+			code = 3
+		case protocol.TO2Protocol:
+			code = 4
+		}
+		if code != 0 {
+			if rows != "" {
+				rows += "; "
+			}
+			rows += fmt.Sprintf("(%d, %d)", t, code)
+		}
+	}
+	out = append(out, TableConst{"proto_of_table", "list (N * N)", "[" + rows + "]"})
 	for _, h := range tableHooks {
 		out = append(out, h()...)
 	}
